@@ -160,13 +160,13 @@ CORE_CLASSES = {
     "C01": ["reuse", "mix", "ready", "disable"],
     "C03": ["pings", "pings", "disable"],
     "C04": ["chans", "chans", "mix"],
-    "C10": ["streams", "streams", "mix"],
+    "C10": ["streams", "execs", "execs", "mix"],
     "C12": ["timers", "timers", "mix"],
     "C02": ["ready", "fds", "mix", "timers"],
     "C05": ["timers", "mix"],
-    "C06": ["reuse", "timers", "mix", "faults"],
-    "C07": ["disable", "mix", "timers", "post"],
-    "C08": ["mix", "idle", "reuse", "post"],
+    "C06": ["reuse", "timers", "mix", "faults", "execs"],
+    "C07": ["disable", "mix", "timers", "post", "execs"],
+    "C08": ["mix", "idle", "reuse", "post", "execs"],
     "C09": ["post", "mix", "faults"],
     "C13": ["idle", "mix"],
     "C14": ["life", "faults", "mix"],
